@@ -318,6 +318,34 @@ CASES = [
     ("nested_list_tail_binding", "pub fn f(xs: List<List<Int>>) -> Data { let r: Data = when xs is { [_, []] -> 1\n [[a, ..b], [c, ..], ..] -> a + c + fold(b, 0, fn(x, n) { x + n })\n _ -> 4 }  r }", [
         ([L(L(I(5), I(-6)), L(I(8)), L(I(-2)))], I(7)), ([L(L(I(5)), L(I(8)))], I(13)), ([L(L(I(5)), L())], I(1)), ([L()], I(4)),
     ], "F9"),
+    # ---------------------------------------------------------------- tracing-dependent (5th field: tracing)
+    ("lazy_prim_cast_verbose", "pub fn f(d: Data, b: Bool) -> Data { expect v: Int = d  let r: Data = if b { v } else { 0 }  r }", [
+        ([B("00"), F], ABORT), ([I(4), T], I(4)), ([I(4), F], I(0)),
+    ], None, "verbose-all"),
+    ("lazy_prim_cast_silent", "pub fn f(d: Data, b: Bool) -> Data { expect v: Int = d  let r: Data = if b { v } else { 0 }  r }", [
+        ([B("00"), F], ABORT), ([I(4), T], I(4)), ([I(4), F], I(0)),
+    ], "F10", "silent-all"),
+    ("lazy_prim_cast_compact", "pub fn f(d: Data, b: Bool) -> Data { expect v: Bool = d  let r: Data = if b { v } else { False }  r }", [
+        ([I(1), F], ABORT), ([T, T], T),
+    ], "F10", "compact-user"),
+    ("unchecked_cast_to_data_verbose", "pub fn f(d: Data) -> Data { expect v: ByteArray = d  let r: Data = [v]  r }", [
+        ([I(1)], ABORT), ([B("aa")], L(B("aa"))),
+    ], None, "verbose-all"),
+    ("unchecked_cast_to_data_silent", "pub fn f(d: Data) -> Data { expect v: ByteArray = d  let r: Data = [v]  r }", [
+        ([I(1)], ABORT), ([B("aa")], L(B("aa"))),
+    ], "F11", "silent-all"),
+    ("cast_consumed_silent", "pub fn f(d: Data) -> Data { expect v: Int = d  let r: Data = v + 1  r }", [
+        ([B("")], ABORT), ([I(1)], I(2)),
+    ], None, "silent-all"),
+    ("nonprim_cast_lazy_use_silent", "pub fn f(d: Data, b: Bool) -> Data { expect v: (Int, Int) = d  let r: Data = if b { v.1st } else { 0 }  r }", [
+        ([I(1), F], ABORT), ([L(I(1), I(2)), T], I(1)),
+    ], None, "silent-all"),
+    ("and_false_constant", "pub const kf: Bool = False\npub fn f(a: Int) -> Data { let r: Data = and { a != 1, 10 / a > 0, kf }  r }", [
+        ([I(0)], ABORT), ([I(1)], F), ([I(2)], F),
+    ], "F6", "silent-all"),
+    ("tuple_subject_column", "pub fn f(a: Int, b: Bool) -> Data { let v = 10 / a  let r: Data = when (b, v) is { (True, p) -> p\n (_, _) -> 0 }  r }", [
+        ([I(0), F], ABORT), ([I(0), T], ABORT), ([I(5), T], I(2)),
+    ], None, "verbose-all"),
     ("string_internal", "pub fn f(a: Int) -> Data { let s = if a > 0 { @\"pos\" } else { @\"neg\" }  let r: Data = s == @\"pos\"  r }", [([I(1)], T), ([I(0)], F)]),
 ]
 
@@ -326,7 +354,8 @@ def main():
     jobs = []
     for i, case in enumerate(CASES):
         name, src, triples = case[0], case[1], case[2]
-        jobs.append(drv.make_job(i, PRELUDE + "\n" + src + "\n", [{"name": "f", "args": [a for a, _x in triples]}]))
+        tracing = case[4] if len(case) > 4 else "verbose-all"
+        jobs.append(drv.make_job(i, PRELUDE + "\n" + src + "\n", [{"name": "f", "args": [a for a, _x in triples]}], tracings=(tracing,)))
     res = drv.run_many(jobs)
     bad = 0
     known_seen = 0
@@ -334,6 +363,8 @@ def main():
     for i, case in enumerate(CASES):
         name, _src, triples = case[0], case[1], case[2]
         known = case[3] if len(case) > 3 else None
+        if len(case) > 4:
+            name = name + "@" + case[4]
         r = res.get(i, {})
         run = (r.get("runs") or [{}])[0]
         if "entries" not in run or "results" not in run["entries"][0]:
